@@ -135,13 +135,17 @@ CLAIMS = {
     ),
     "C01": (
         "Theorems C01_exactly_once, C01_lifo_and_argument, C01_all_finish, C01_one_at_a_time, C01_all_collected, C01_frame, "
-        "C01_route_add/_direct, C01_outcome_group/_normal/_own, C01_closed_afterwards hold for all callback stacks (any number, "
-        "any nesting of registrations during teardown, any subset raising any exception class, sync/async, with/without "
-        "pass_exception) and all block endings by return or exception, about the Lean function `runTeardown` and the exit "
-        "step. " + KERNEL_NOTE,
-        "Partial: cancellation of the block (delivered at a checkpoint) and real suspension of async callbacks are not in "
-        "the model (anyio level-cancellation semantics): not generated, not claimed. The Python class of the exception "
-        "group and sys.exc_info() inside __aexit__ are implementation-side.",
+        "C01_route_add/_direct, C01_outcome_group/_normal/_own/_cancelled, C01_closed_afterwards hold for all callback stacks "
+        "(any number, any nesting of registrations during teardown, any subset raising any exception class, sync/async, "
+        "with/without pass_exception) and all block endings - return, exception, cancellation - about the Lean function "
+        "`runTeardown` and the exit step. Cancellation of the block is the model's `effStack`: the teardown runs in a cancelled "
+        "scope, so an asynchronous callback is invoked and its awaitable cancelled at its first checkpoint (C01_cancel_only, "
+        "_shape, _all_invoked, _lifo, _collected: every registered callback is still invoked once, in LIFO order, and each "
+        "cancellation is collected like any other exception). " + KERNEL_NOTE,
+        "Partial: cancellation arriving in the middle of a teardown that began for another reason, shielded callbacks, and "
+        "callbacks that work before their first checkpoint are not in the model: not generated, not claimed. When every "
+        "exception reaching the caller is a cancellation, their number and nesting are the back-end's (compared as one "
+        "token). The Python class of the exception group and sys.exc_info() inside __aexit__ are implementation-side.",
         "8/C01",
     ),
     "C02": (
